@@ -45,6 +45,9 @@ pub trait JsonParser {
                r is Ok && r->Ok_0 is Some ==> (match pv(p) {
                    Some((v, n)) => r->Ok_0->0 == v && 0 < n <= p.len() && final(self).rv().pending =~= from(p, n),
                    None => false }) }), // @tobl L3.value
+            // COMPLETENESS: a value spelled in one of the accepted ways (pvs) is never rejected — no valid input is dropped
+            !is_io(r) && pvs(old(self).rv().pending) ==> r is Ok && r->Ok_0 is Some, // @tobl L4.accepts
+            !is_io(r) && ws_run(old(self).rv().pending) == old(self).rv().pending.len() ==> r is Ok && r->Ok_0 is None, // @tobl L4.eof
         decreases old(self).rv().pending.len(), 2int,
 //@@ endfn
 }
